@@ -5,7 +5,7 @@
 // copy.  The log and the result (static type, value, identity of a returned reference) of a direct call must equal
 // those of the call through etl::invoke, invoke_r, reference_wrapper, function_ref, inplace_function, bind_front, not_fn.
 // Build: -DVF_PART=0 invoke/invoke_r  1 function_ref  2 inplace_function  3 bind_front/not_fn  4 reference_wrapper, functions
-//        5 member-function / member-data pointers through invoke
+//        5 member-function / member-data pointers through invoke  6 targets/elements with an overloaded unary operator&
 // Enumerated: (group, v0, v1) with argument values over {0,1,2}; each case sweeps all callee categories x argument
 // categories x result kinds of its group (compile-time loops).  Random: same groups with boundary/random argument values.
 #include "vf.hpp"
@@ -641,6 +641,358 @@ void run_group(unsigned g)
         });
         break;
     default: t_ipf_function(); break;
+    }
+}
+
+#elif VF_PART == 6
+// ================================================================================================ targets / elements with a hostile unary operator&
+// c20::Amp overloads unary & to return the address of a decoy.  Everything in the property that stores or forms an address
+// (reference_wrapper/ref/cref, function_ref, inplace_function, pairs/tuples of references, tie/forward_as_tuple, invoke with
+// member pointers, apply, bind_front, not_fn) must still refer to / call the object it was given: identity is checked with
+// std::addressof and the behaviour is compared with the std counterpart or the direct call.
+int amp_id() { return static_cast<int>((static_cast<unsigned>(g_v0) & 0xffu) + 10u); }
+int amp_arg() { return static_cast<int>(static_cast<unsigned>(g_v1) & 0xffffu); }
+void self_is(Amp const& a) { calllog().expected_self = std::addressof(a); }
+void t_amp_refwrap()
+{
+    g_subj = "reference_wrapper<Amp>";
+    char const* sit = "target-overloads-operator&";
+    int const v     = amp_arg();
+    Amp x(amp_id()), x2(amp_id());
+    calllog().track_ids = false;
+    crumb("ref(x).get()", sit);
+    auto r  = etl::ref(x);
+    auto sr = std::ref(x2);
+    vf::eq_bool("get-refers-to-the-wrapped-object", same_object(r.get(), x), same_object(sr.get(), x2));
+    Amp& conv = r;
+    vf::eq_bool("conversion-refers-to-the-wrapped-object", same_object(conv, x), true);
+    cover("ref(x).get()", sit);
+    crumb("cref(x).get()", sit);
+    auto cr = etl::cref(x);
+    vf::eq_bool("get-refers-to-the-wrapped-object", same_object(cr.get(), x), same_object(std::cref(x2).get(), x2));
+    etl::reference_wrapper<Amp const> rc(x);
+    vf::eq_bool("reference_wrapper<T const>(x)-refers-to-the-wrapped-object", same_object(rc.get(), x), true);
+    cover("cref(x).get()", sit);
+    crumb("copy / assignment / ref(ref(x))", sit);
+    auto r2 = r;
+    vf::eq_bool("copy-refers-to-the-wrapped-object", same_object(r2.get(), x), true);
+    Amp other(77);
+    auto r3 = etl::ref(other);
+    r3      = r;
+    vf::eq_bool("assigned-refers-to-the-wrapped-object", same_object(r3.get(), x), true);
+    vf::eq_bool("ref(ref(x))-refers-to-the-wrapped-object", same_object(etl::ref(r).get(), x), same_object(std::ref(sr).get(), x2));
+    vf::eq_bool("cref(ref(x))-refers-to-the-wrapped-object", same_object(etl::cref(r).get(), x), same_object(std::cref(sr).get(), x2));
+    cover("copy / assignment / ref(ref(x))", sit);
+    crumb("ref(x)(a)", sit);
+    compare_call([&] { self_is(x2); return C20_RES(x2(v)); }, [&] { self_is(x); return C20_RES(r(v)); });
+    cover("ref(x)(a)", sit);
+    crumb("copy-of-ref(x)(a)", sit);
+    compare_call([&] { self_is(x2); return C20_RES(x2(v)); }, [&] { self_is(x); return C20_RES(r2(v)); });
+    cover("copy-of-ref(x)(a)", sit);
+    crumb("cref(x)(a)", sit);
+    compare_call([&] { self_is(x2); return C20_RES(std::as_const(x2)(v)); }, [&] { self_is(x); return C20_RES(cr(v)); });
+    cover("cref(x)(a)", sit);
+    crumb("invoke(ref(x),a)", sit);
+    compare_call([&] { self_is(x2); return C20_RES(x2(v)); }, [&] { self_is(x); return C20_RES(etl::invoke(r, v)); });
+    cover("invoke(ref(x),a)", sit);
+    vf::eq_int("decoy-never-called", Amp::decoy().calls, 0);
+}
+void t_amp_function_wrappers()
+{
+    char const* sit = "target-overloads-operator&";
+    int const v     = amp_arg();
+    Amp x(amp_id()), x2(amp_id());
+    calllog().track_ids = false;
+    g_subj = "function_ref";
+    {
+        etl::function_ref<int(int)> f(x);
+        crumb("function_ref<int(int)>(x)(a)", sit);
+        compare_call([&] { self_is(x2); return C20_RES(x2(v)); }, [&] { self_is(x); return C20_RES(f(v)); });
+        cover("function_ref<int(int)>(x)(a)", sit);
+        auto f2 = f;
+        crumb("copy of function_ref(x)(a)", sit);
+        compare_call([&] { self_is(x2); return C20_RES(x2(v)); }, [&] { self_is(x); return C20_RES(f2(v)); });
+        cover("copy of function_ref(x)(a)", sit);
+        etl::function_ref<int(int)> fc(std::as_const(x));
+        crumb("function_ref<int(int)>(const x)(a)", sit);
+        compare_call([&] { self_is(x2); return C20_RES(std::as_const(x2)(v)); }, [&] { self_is(x); return C20_RES(fc(v)); });
+        cover("function_ref<int(int)>(const x)(a)", sit);
+        etl::function_ref<int(int)> fr(etl::ref(x)); // a reference_wrapper as the bound entity
+        auto rw = etl::ref(x);
+        etl::function_ref<int(int)> fr2(rw);
+        crumb("function_ref<int(int)>(ref(x))(a)", sit);
+        compare_call([&] { self_is(x2); return C20_RES(x2(v)); }, [&] { self_is(x); return C20_RES(fr2(v)); });
+        cover("function_ref<int(int)>(ref(x))(a)", sit);
+        (void)fr;
+    }
+    {
+        // Amp as an argument passed through the wrappers by reference: the callee must see the caller's object
+        Fn<0> fd(1), fv(1);
+        calllog().track_ids     = true;
+        calllog().caller_obj[0] = std::addressof(x);
+        calllog().caller_obj[1] = nullptr;
+        calllog().caller_obj[2] = nullptr;
+        calllog().expected_self = nullptr;
+        etl::function_ref<int(Amp&)> fa(fv);
+        crumb("function_ref<int(Amp&)>(f)(x)", "argument-overloads-operator&");
+        compare_call([&] { return C20_RES(fd(x)); }, [&] { return C20_RES(fa(x)); });
+        cover("function_ref<int(Amp&)>(f)(x)", "argument-overloads-operator&");
+        Fn<0> fd2(2);
+        etl::inplace_function<int(Amp const&), 16> ia(Fn<0>(2));
+        crumb("inplace_function<int(Amp const&)>(f)(x)", "argument-overloads-operator&");
+        compare_call([&] { return C20_RES(fd2(std::as_const(x))); }, [&] { return C20_RES(ia(x)); });
+        cover("inplace_function<int(Amp const&)>(f)(x)", "argument-overloads-operator&");
+        calllog().track_ids = false;
+        Fn<0> fd3(3);
+        etl::inplace_function<int(Amp), 16> iv(Fn<0>(3));
+        crumb("inplace_function<int(Amp)>(f)(x)", "argument-overloads-operator&");
+        compare_call([&] { return C20_RES(fd3(Amp(x))); }, [&] { return C20_RES(iv(x)); });
+        cover("inplace_function<int(Amp)>(f)(x)", "argument-overloads-operator&");
+    }
+    g_subj = "inplace_function";
+    {
+        calllog().expected_self = nullptr;
+        Amp x(amp_id()), x2(amp_id()); // fresh objects: never called directly
+        Amp c2(x2);
+        etl::inplace_function<int(int), 32> g(x);
+        crumb("inplace_function<int(int)>(x)(a)", sit);
+        compare_call([&] { return C20_RES(c2(v)); }, [&] { return C20_RES(g(v)); });
+        vf::eq_int("source-object-call-count", x.calls, 0);
+        cover("inplace_function<int(int)>(x)(a)", sit);
+        auto g2 = g;
+        Amp c3(c2);
+        crumb("copy of inplace_function(x)(a)", sit);
+        compare_call([&] { return C20_RES(c3(v)); }, [&] { return C20_RES(g2(v)); });
+        cover("copy of inplace_function(x)(a)", sit);
+        auto g3 = std::move(g);
+        crumb("move of inplace_function(x)(a)", sit);
+        compare_call([&] { return C20_RES(c2(v)); }, [&] { return C20_RES(g3(v)); });
+        cover("move of inplace_function(x)(a)", sit);
+        g3.swap(g2);
+        crumb("swapped inplace_function(x)(a)", sit);
+        compare_call([&] { return C20_RES(c3(v)); }, [&] { return C20_RES(g3(v)); });
+        cover("swapped inplace_function(x)(a)", sit);
+        // captured by value inside a lambda, and captured reference_wrapper
+        etl::inplace_function<int(int), 48> l([a = x](int q) mutable { return a(q); });
+        Amp c4(x2);
+        crumb("inplace_function([a=x](int){...})(a)", sit);
+        compare_call([&] { return C20_RES(c4(v)); }, [&] { return C20_RES(l(v)); });
+        cover("inplace_function([a=x](int){...})(a)", sit);
+        etl::inplace_function<int(int), 16> lr(etl::ref(x));
+        crumb("inplace_function(ref(x))(a)", sit);
+        compare_call([&] { self_is(x2); return C20_RES(x2(v)); }, [&] { self_is(x); return C20_RES(lr(v)); });
+        cover("inplace_function(ref(x))(a)", sit);
+    }
+    vf::eq_int("decoy-never-called", Amp::decoy().calls, 0);
+}
+struct AmpSink {
+    void const* p0;
+    int id;
+    template <typename X>
+    AmpSink(X&& x, int) : p0(std::addressof(x)), id(x.id)
+    {
+    }
+};
+void t_amp_pair_tuple()
+{
+    char const* sit = "element-overloads-operator&";
+    Amp x(amp_id()), y(amp_id() + 1), x2(amp_id()), y2(amp_id() + 1);
+    g_subj = "pair<Amp&,int>";
+    {
+        crumb("pair<Amp&,int>(x,1)", sit);
+        etl::pair<Amp&, int> p(x, 1);
+        std::pair<Amp&, int> sp(x2, 1);
+        vf::eq_bool("first-refers-to-x", same_object(p.first, x), same_object(sp.first, x2));
+        vf::eq_bool("get<0>(p)-refers-to-x", same_object(etl::get<0>(p), x), same_object(std::get<0>(sp), x2));
+        vf::eq_bool("get<0>(const p)-refers-to-x", same_object(etl::get<0>(std::as_const(p)), x), true);
+        etl::pair<Amp&, int> pc(p);
+        vf::eq_bool("copy.first-refers-to-x", same_object(pc.first, x), true);
+        auto mp = etl::make_pair(etl::ref(x), 1);
+        auto sm = std::make_pair(std::ref(x2), 1);
+        same_type<decltype(mp), decltype(sm)>();
+        vf::eq_bool("make_pair(ref(x),1).first-refers-to-x", same_object(mp.first, x), same_object(sm.first, x2));
+        etl::pair<Amp&, int> q(y, 2);
+        std::pair<Amp&, int> sq(y2, 2);
+        p = q; // assigns through the reference
+        sp = sq;
+        vf::eq_int("assigned-through.id", x.id, x2.id);
+        vf::eq_bool("still-refers-to-x", same_object(p.first, x), same_object(sp.first, x2));
+        x  = Amp(amp_id());
+        x2 = Amp(amp_id());
+        cover("pair<Amp&,int>(x,1)", sit);
+    }
+    g_subj = "pair<Amp,int>";
+    {
+        crumb("pair<Amp,int> copy/swap/get", sit);
+        etl::pair<Amp, int> p(x, 1), q(y, 2);
+        std::pair<Amp, int> sp(x2, 1), sq(y2, 2);
+        vf::eq_bool("get<0>(p)-refers-into-p", same_object(etl::get<0>(p), p.first), same_object(std::get<0>(sp), sp.first));
+        p.swap(q);
+        sp.swap(sq);
+        vf::eq_int("swap.lhs.id", p.first.id, sp.first.id);
+        vf::eq_int("swap.rhs.id", q.first.id, sq.first.id);
+        swap(p, q);
+        swap(sp, sq);
+        vf::eq_int("swap(a,b).lhs.id", p.first.id, sp.first.id);
+        vf::eq_bool("operator==", p == q, sp == sq);
+        cover("pair<Amp,int> copy/swap/get", sit);
+    }
+    g_subj = "tuple<Amp&,int>";
+    {
+        crumb("tuple<Amp&,int> / tie / forward_as_tuple", sit);
+        etl::tuple<Amp&, int> t(x, 1);
+        std::tuple<Amp&, int> st(x2, 1);
+        vf::eq_bool("get<0>(t)-refers-to-x", same_object(etl::get<0>(t), x), same_object(std::get<0>(st), x2));
+        vf::eq_bool("get<0>(const t)-refers-to-x", same_object(etl::get<0>(std::as_const(t)), x), true);
+        vf::eq_bool("get<0>(move(t))-refers-to-x", same_object(etl::get<0>(std::move(t)), x), true);
+        vf::eq_bool("tie(x)-refers-to-x", same_object(etl::get<0>(etl::tie(x, y)), x) && same_object(etl::get<1>(etl::tie(x, y)), y), true);
+        vf::eq_bool("forward_as_tuple(x)-refers-to-x", same_object(etl::get<0>(etl::forward_as_tuple(x, 1)), x), true);
+        auto mt = etl::make_tuple(etl::ref(x), 2);
+        auto sm = std::make_tuple(std::ref(x2), 2);
+        same_type<decltype(mt), decltype(sm)>();
+        vf::eq_bool("make_tuple(ref(x),2)-refers-to-x", same_object(etl::get<0>(mt), x), same_object(std::get<0>(sm), x2));
+        auto tc = etl::tuple_cat(etl::tie(x), etl::tuple<int>(3), etl::tie(y));
+        auto sc = std::tuple_cat(std::tie(x2), std::tuple<int>(3), std::tie(y2));
+        same_type<decltype(tc), decltype(sc)>();
+        vf::eq_bool("tuple_cat(tie(x),..,tie(y))-refers-to-x-and-y", same_object(etl::get<0>(tc), x) && same_object(etl::get<2>(tc), y),
+            same_object(std::get<0>(sc), x2) && same_object(std::get<2>(sc), y2));
+        etl::tuple<Amp&, int> t2(y, 5);
+        std::tuple<Amp&, int> st2(y2, 5);
+        t.swap(t2); // swaps the referred objects
+        st.swap(st2);
+        vf::eq_int("swap.referred-x.id", x.id, x2.id);
+        vf::eq_int("swap.referred-y.id", y.id, y2.id);
+        vf::eq_bool("operator==", t == t2, st == st2);
+        cover("tuple<Amp&,int> / tie / forward_as_tuple", sit);
+    }
+    g_subj = "apply/make_from_tuple";
+    {
+        Fn<0> fd(1), fv(1);
+        CallLog& L      = calllog();
+        L.track_ids     = true;
+        L.caller_obj[0] = std::addressof(x);
+        L.caller_obj[1] = std::addressof(y);
+        L.caller_obj[2] = nullptr;
+        L.expected_self = nullptr;
+        crumb("apply(f,tie(x,y))", sit);
+        compare_call([&] { return C20_RES(std::apply(fd, std::tie(x, y))); }, [&] { return C20_RES(etl::apply(fv, etl::tie(x, y))); });
+        cover("apply(f,tie(x,y))", sit);
+        crumb("apply(f,forward_as_tuple(x,move(y)))", sit);
+        compare_call([&] { return C20_RES(std::apply(fd, std::forward_as_tuple(x, std::move(y)))); }, [&] { return C20_RES(etl::apply(fv, etl::forward_as_tuple(x, std::move(y)))); });
+        cover("apply(f,forward_as_tuple(x,move(y)))", sit);
+        crumb("apply(f,pair<Amp&,Amp const&>)", sit);
+        compare_call([&] { return C20_RES(std::apply(fd, std::pair<Amp&, Amp const&>(x, y))); }, [&] { return C20_RES(etl::apply(fv, etl::pair<Amp&, Amp const&>(x, y))); });
+        cover("apply(f,pair<Amp&,Amp const&>)", sit);
+        L.track_ids = false;
+        crumb("make_from_tuple<S>(forward_as_tuple(x,1))", sit);
+        AmpSink es = etl::make_from_tuple<AmpSink>(etl::forward_as_tuple(x, 1));
+        AmpSink ss = std::make_from_tuple<AmpSink>(std::forward_as_tuple(x2, 1));
+        vf::eq_bool("constructor-argument-is-x", es.p0 == std::addressof(x), ss.p0 == std::addressof(x2));
+        vf::eq_int("constructor-argument.id", es.id, ss.id);
+        cover("make_from_tuple<S>(forward_as_tuple(x,1))", sit);
+        // the callable itself overloads operator&
+        Amp cx(amp_id()), cx2(amp_id());
+        crumb("apply(ref(x),tuple<int>)", "target-overloads-operator&");
+        compare_call([&] { self_is(cx2); return C20_RES(std::apply(std::ref(cx2), std::tuple<int>(amp_arg()))); },
+            [&] { self_is(cx); return C20_RES(etl::apply(etl::ref(cx), etl::tuple<int>(amp_arg()))); });
+        cover("apply(ref(x),tuple<int>)", "target-overloads-operator&");
+        crumb("apply(x,tuple<int>)", "target-overloads-operator&");
+        compare_call([&] { self_is(cx2); return C20_RES(std::apply(cx2, std::tuple<int>(amp_arg()))); }, [&] { self_is(cx); return C20_RES(etl::apply(cx, etl::tuple<int>(amp_arg()))); });
+        cover("apply(x,tuple<int>)", "target-overloads-operator&");
+    }
+    vf::eq_int("decoy-never-called", Amp::decoy().calls, 0);
+}
+void t_amp_invoke_bind()
+{
+    char const* sit = "receiver-overloads-operator&";
+    int const v     = amp_arg();
+    Amp x(amp_id()), x2(amp_id());
+    calllog().track_ids = false;
+    g_subj = "invoke(member-pointer)";
+    {
+        crumb("invoke(pmd,recv)", sit);
+        vf::eq_bool("invoke(&Amp::data,x)-is-x.data", std::addressof(etl::invoke(&Amp::data, x)) == std::addressof(x.data), std::addressof(std::invoke(&Amp::data, x2)) == std::addressof(x2.data));
+        vf::eq_bool("invoke(&Amp::data,ref(x))-is-x.data", std::addressof(etl::invoke(&Amp::data, etl::ref(x))) == std::addressof(x.data),
+            std::addressof(std::invoke(&Amp::data, std::ref(x2))) == std::addressof(x2.data));
+        vf::eq_bool("invoke(&Amp::data,cref(x))-is-x.data", std::addressof(etl::invoke(&Amp::data, etl::cref(x))) == std::addressof(x.data), true);
+        vf::eq_bool("invoke(&Amp::data,addressof(x))-is-x.data", std::addressof(etl::invoke(&Amp::data, std::addressof(x))) == std::addressof(x.data), true);
+        vf::eq_int("invoke(&Amp::id,ref(x))", etl::invoke(&Amp::id, etl::ref(x)), std::invoke(&Amp::id, std::ref(x2)));
+        cover("invoke(pmd,recv)", sit);
+        crumb("invoke(pmf,x,a)", sit);
+        compare_call([&] { self_is(x2); return C20_RES(std::invoke(&Amp::mf, x2, v)); }, [&] { self_is(x); return C20_RES(etl::invoke(&Amp::mf, x, v)); });
+        cover("invoke(pmf,x,a)", sit);
+        crumb("invoke(pmf,ref(x),a)", sit);
+        compare_call([&] { self_is(x2); return C20_RES(std::invoke(&Amp::mf, std::ref(x2), v)); }, [&] { self_is(x); return C20_RES(etl::invoke(&Amp::mf, etl::ref(x), v)); });
+        cover("invoke(pmf,ref(x),a)", sit);
+        crumb("invoke(const pmf,cref(x),a)", sit);
+        compare_call([&] { self_is(x2); return C20_RES(std::invoke(&Amp::cmf, std::cref(x2), v)); }, [&] { self_is(x); return C20_RES(etl::invoke(&Amp::cmf, etl::cref(x), v)); });
+        cover("invoke(const pmf,cref(x),a)", sit);
+        crumb("invoke(pmf,addressof(x),a)", sit);
+        compare_call([&] { self_is(x2); return C20_RES(std::invoke(&Amp::mf, std::addressof(x2), v)); }, [&] { self_is(x); return C20_RES(etl::invoke(&Amp::mf, std::addressof(x), v)); });
+        cover("invoke(pmf,addressof(x),a)", sit);
+        crumb("invoke(x,a) / invoke_r<long>(x,a)", sit);
+        compare_call([&] { self_is(x2); return C20_RES(std::invoke(x2, v)); }, [&] { self_is(x); return C20_RES(etl::invoke(x, v)); });
+        compare_call([&] { self_is(x2); return C20_RES(static_cast<long>(x2(v))); }, [&] { self_is(x); return C20_RES(etl::invoke_r<long>(x, v)); });
+        cover("invoke(x,a) / invoke_r<long>(x,a)", sit);
+    }
+    g_subj = "bind_front/not_fn";
+    sit    = "target-or-bound-argument-overloads-operator&";
+    {
+        auto eb = etl::bind_front(etl::ref(x));
+        auto sb = std::bind_front(std::ref(x2));
+        crumb("bind_front(ref(x))(a)", sit);
+        compare_call([&] { self_is(x2); return C20_RES(sb(v)); }, [&] { self_is(x); return C20_RES(eb(v)); });
+        cover("bind_front(ref(x))(a)", sit);
+        auto em = etl::bind_front(&Amp::mf, etl::ref(x));
+        auto sm = std::bind_front(&Amp::mf, std::ref(x2));
+        crumb("bind_front(pmf,ref(x))(a)", sit);
+        compare_call([&] { self_is(x2); return C20_RES(sm(v)); }, [&] { self_is(x); return C20_RES(em(v)); });
+        compare_call([&] { self_is(x2); return C20_RES(std::move(sm)(v)); }, [&] { self_is(x); return C20_RES(std::move(em)(v)); });
+        cover("bind_front(pmf,ref(x))(a)", sit);
+        auto ep = etl::bind_front(&Amp::mf, std::addressof(x));
+        crumb("bind_front(pmf,addressof(x))(a)", sit);
+        compare_call([&] { self_is(x2); return C20_RES(x2.mf(v)); }, [&] { self_is(x); return C20_RES(ep(v)); });
+        cover("bind_front(pmf,addressof(x))(a)", sit);
+        auto ed = etl::bind_front(&Amp::data, etl::ref(x));
+        vf::eq_bool("bind_front(pmd,ref(x))()-is-x.data", std::addressof(ed()) == std::addressof(x.data), true);
+        // a copy of the target is stored and called (same id, never the decoy)
+        calllog().expected_self = nullptr;
+        auto ec = etl::bind_front(x, v);
+        auto sc = std::bind_front(x2, v);
+        crumb("bind_front(x,a)()", sit);
+        compare_call([&] { return C20_RES(sc()); }, [&] { return C20_RES(ec()); });
+        cover("bind_front(x,a)()", sit);
+        // Amp as a bound argument (by value and through ref): what the callee receives
+        Fn<0> fd(1);
+        auto ea = etl::bind_front(Fn<0>(1), etl::ref(x), Amp(x));
+        auto sa = std::bind_front(Fn<0>(1), std::ref(x2), Amp(x2));
+        crumb("bind_front(f,ref(x),Amp)()", sit);
+        compare_call([&] { return C20_RES(sa()); }, [&] { return C20_RES(ea()); });
+        cover("bind_front(f,ref(x),Amp)()", sit);
+        (void)fd;
+        auto en = etl::not_fn(etl::ref(x));
+        auto sn = std::not_fn(std::ref(x2));
+        crumb("not_fn(ref(x))(a)", sit);
+        compare_call([&] { self_is(x2); return C20_RES(sn(v)); }, [&] { self_is(x); return C20_RES(en(v)); });
+        cover("not_fn(ref(x))(a)", sit);
+        calllog().expected_self = nullptr;
+        auto en2 = etl::not_fn(x);
+        auto sn2 = std::not_fn(x2);
+        crumb("not_fn(x)(a)", sit);
+        compare_call([&] { return C20_RES(sn2(v)); }, [&] { return C20_RES(en2(v)); });
+        compare_call([&] { return C20_RES(std::as_const(sn2)(v)); }, [&] { return C20_RES(std::as_const(en2)(v)); });
+        cover("not_fn(x)(a)", sit);
+    }
+    vf::eq_int("decoy-never-called", Amp::decoy().calls, 0);
+}
+constexpr unsigned kGroups = 4;
+void run_group(unsigned g)
+{
+    switch (g) {
+    case 0: t_amp_refwrap(); break;
+    case 1: t_amp_function_wrappers(); break;
+    case 2: t_amp_pair_tuple(); break;
+    default: t_amp_invoke_bind(); break;
     }
 }
 
